@@ -449,12 +449,21 @@ def _merge_masks(
     idx_values.sort()
 
     indices_dtype = choose_int_dtype((0, max(n_indices, n_genes)))
+
+    # (a dataset with no elements cannot be chunked or compressed)
+    if n_indices > 0:
+        chunks = (min(n_indices, 1000000),)
+    else:
+        chunks = None
+        compression = None
+        compression_opts = None
+
     with h5py.File(dst_path, 'a') as dst:
         dst_indices = dst.create_dataset(
             'indices',
             shape=(n_indices,),
             dtype=indices_dtype,
-            chunks=(min(n_indices, 1000000),),
+            chunks=chunks,
             compression=compression,
             compression_opts=compression_opts)
 
@@ -462,7 +471,7 @@ def _merge_masks(
             'data',
             shape=(n_indices,),
             dtype=data_dtype,
-            chunks=(min(n_indices, 1000000),),
+            chunks=chunks,
             compression=compression,
             compression_opts=compression_opts)
 
